@@ -383,14 +383,15 @@ def _rejects_nul_and_colon(w, fn_path, need_colon=True):
         for a, t in p.conds:
             sa = D.show_atom(a)
             m = re.match(r"^(?:str|slice)::contains\((?:str::as_bytes\()?l\)?, (.*)\)$", sa)
-            if m and t is False:
+            if m and t is False and not re.match(r"(closure|fn)\[", m.group(1)):
                 lits = re.findall(r"'((?:\\x[0-9a-f]{2})|[^'])'", m.group(1))
                 for lit in lits:
                     excluded.add(int(lit[2:], 16) if lit.startswith("\\x") else ord(lit))
                 if re.fullmatch(r"\d+", m.group(1).strip()):
                     excluded.add(int(m.group(1)))
                 continue
-            m = re.match(r"^Iterator::(any|all)\((str::bytes|str::chars)\(l\), (?:closure|fn)\[([^\]]+)\](\{.*\})?\)$", sa)
+            m = re.match(r"^Iterator::(any|all)\((str::bytes|str::chars)\(l\), (?:closure|fn)\[([^\]]+)\](\{.*\})?\)$", sa) or \
+                re.match(r"^str::(contains)\((l), (?:closure|fn)\[([^\]]+)\](\{.*\})?\)$", sa)      # a predicate pattern: contains(|c| ..) == chars().any(..)
             if m:
                 clo = w.lookup(m.group(3))
                 tt = byte_truth_table(w, clo) if clo is not None and "body" in clo else "closure not found"
@@ -398,7 +399,7 @@ def _rejects_nul_and_colon(w, fn_path, need_colon=True):
                     return False, tt
                 quant = m.group(1)
                 # any(pred) false -> every byte has pred false: excluded = {b: pred(b)};  all(pred) true -> excluded = {b: not pred(b)}
-                if quant == "any" and t is False:
+                if quant in ("any", "contains") and t is False:
                     excluded |= {b for b in range(256) if tt[b]}
                 elif quant == "all" and t is True:
                     excluded |= {b for b in range(256) if not tt[b]}
@@ -605,6 +606,10 @@ def byte_truth_table(w, clo):
                 m = re.match(r"^(?:\w+::)*(is_ascii\w*)\(b\)$", t)
                 if m and m.group(1) in U8_PREDICATES:
                     return U8_PREDICATES[m.group(1)](b)
+                raise KeyError(t)
+            if atom[0] == "int":         # switch on the byte / char value (`matches!(c, ':' | '\\0')`)
+                if D.show(atom[1]) in ("b", "cast(b)") and isinstance(atom[2], int):
+                    return b == atom[2]
                 raise KeyError(t)
             if atom[0] in ("eq", "cmp"):
                 def num(x):
